@@ -258,6 +258,9 @@ def gen_post_step(rng, w, has_born, prev_wrote_fc, force_cmd=None):
         s["nowritemesh"] = True
     if rng.random() < 0.15 and mode != "readfc":
         s["mass"] = "__AUTO__"  # filled at run time: one (modified) mass per atom of the primitive cell
+    if cmd == "phonopy-load" and not has_born and "mass" not in s and mode != "pdos" and rng.random() < 0.25:
+        # the primitive axes stated on the command line / in the configuration file override those recorded in the input yaml
+        s["pa"] = "P"
     return dict(mode=mode, cmd=cmd, settings=s)
 
 
@@ -360,6 +363,8 @@ def _ref_object(spec, s, path, cmd):
         # force_constants.hdf5 (left by an earlier write-fc step of the same workflow) ahead of FORCE_SETS
         if s.get("readfc"):
             lkw["force_constants_filename"] = "force_constants.hdf5" if s.get("readfc_format") == "hdf5" else "FORCE_CONSTANTS"
+        if "pa" in s:
+            lkw["primitive_matrix"] = s["pa"]
         fc_from_file = bool(s.get("readfc")) or os.path.exists("FORCE_CONSTANTS") or os.path.exists("force_constants.hdf5")
         ph = phonopy.load("phonopy_disp.yaml", **lkw)
         if "mass" in s:
